@@ -1,13 +1,25 @@
-"""C12 — broker-family check (see checks/brokerfam.py and DESIGN.md §4 C12)."""
+"""C12 — version negotiation, feature gating and cross-version payload interop."""
+import os
+
 from checks import brokerfam
+from vlib import interop
 
 PROP = "C12"
 PINS = {}
-MIXES = ["all","calls","events","abuse"]
+MIXES = ["all", "calls", "events", "abuse"]
+
+
+def extra(o, tier, seed):
+    interop.run(o, PROP, tier, seed)
+    try:
+        from vlib import accept
+        accept.handshake_correspondence(o, seed)
+    except ImportError:
+        o.notes.append("handshake correspondence (vlib/accept.py) not available yet")
 
 
 def run(tier, seed):
-    return brokerfam.run_check(PROP, "Props/C12.v", PINS, MIXES, tier, seed)
+    return brokerfam.run_check(PROP, "Props/C12.v", PINS, MIXES, tier, seed, extra=extra)
 
 
 def replay(path):
